@@ -118,6 +118,14 @@ pub fn judge(x: &Vec<u8>, st: &mut Stats) -> Verdict {
                 Builder::new(x[12], x[13]).write_payload(h.address_bytes())?.write_payloads(gathered.iter())?.build()
             }),
         )?;
+        // items that were copied out of the read buffer first (TypeLengthValue::to_owned)
+        check(
+            "items-owned",
+            guard(|| {
+                let owned: Vec<TypeLengthValue<'static>> = items.iter().map(|t| t.to_owned()).collect();
+                Builder::new(x[12], x[13]).write_payload(h.address_bytes())?.write_payloads(owned.iter())?.build()
+            }),
+        )?;
         check("items-batch", guard(|| Builder::new(x[12], x[13]).write_payload(h.address_bytes())?.write_payloads(items.iter())?.build()))?;
         check(
             "items-write_tlv",
